@@ -78,7 +78,7 @@ func genFailModule(sc *Scenario) {
 
 // genPluginFiles draws the paths the plugins answer with.
 func genPluginFiles(sc *Scenario) {
-	core := corePaths(sc)
+	core := append(corePaths(sc), apiPaths(sc)...)
 	var taken []string // paths of earlier plugins
 	for _, ps := range sc.Plugins {
 		n := simrt.Choice("c17.files", 4)
@@ -226,6 +226,37 @@ func corePaths(sc *Scenario) []string {
 	return out
 }
 
+// apiPaths are the files the built-in generator behind --generate-plugin-api adds:
+// interface, client and handler for every service of every generated module.
+func apiPaths(sc *Scenario) []string {
+	if !sc.PluginAPI {
+		return nil
+	}
+	root := thriftRootRel(sc)
+	var out []string
+	for i, f := range sc.Prog.Files {
+		if i > 0 && (sc.NoRecurse || sc.OutputFile != "") {
+			continue
+		}
+		full := "thrift/" + f.RelPath()
+		if !under(full, root) {
+			continue
+		}
+		rel := strings.TrimSuffix(full, ".thrift")
+		if root != "" {
+			rel = strings.TrimPrefix(rel, root+"/")
+		}
+		for _, d := range f.Defs {
+			if d.Kind == progen.KService && !d.Removed {
+				for _, suffix := range []string{".go", "_client.go", "_handler.go"} {
+					out = append(out, path.Clean(rel+"/"+strings.ToLower(d.Name)+suffix))
+				}
+			}
+		}
+	}
+	return out
+}
+
 // generatingPlugins: plugins that get to answer a generate request when
 // nothing fails earlier.
 func generatingPlugins(sc *Scenario) []*Script {
@@ -293,6 +324,9 @@ func expectC17(sc *Scenario) c17Expect {
 	owner := map[string]string{}
 	for _, c := range corePaths(sc) {
 		owner[cleanRel(c)] = "core"
+	}
+	for _, c := range apiPaths(sc) {
+		owner[cleanRel(c)] = "pluginapigen"
 	}
 	for _, ps := range generatingPlugins(sc) {
 		if !genReplyDelivered(ps) {
@@ -374,6 +408,9 @@ func checkC17(res *world.Result, s *simrt.Sim, sc *Scenario, logs []*PlugLog, ho
 	if host.Err == nil && len(reasons) == 0 {
 		want := map[string]bool{}
 		for _, c := range corePaths(sc) {
+			want["out/"+cleanRel(c)] = true
+		}
+		for _, c := range apiPaths(sc) {
 			want["out/"+cleanRel(c)] = true
 		}
 		for _, ps := range generatingPlugins(sc) {
